@@ -558,6 +558,77 @@ def scanner_selfcheck(ctx, rep):
     shutil.rmtree(root, ignore_errors=True)
 
 
+def vanishing_chunk_probe(ctx, rep):
+    """A chunk that occurs twice in one snapshot stream while its first copy disappears in between (another client's
+    clean removes chunks no snapshot references yet): whatever is uploaded the second time must again be ciphertext."""
+    import asyncio, contextlib, io, random, shutil
+    from replicat.repository import Repository
+    from harness.memstore import MemBackend
+    for cname, cipher in (('aes_gcm', {'name': 'aes_gcm', 'key_bits': 256}), ('chacha20_poly1305', {'name': 'chacha20_poly1305'})):
+        rng = random.Random(ctx.rng.randrange(1 << 30))
+        root = Path(ctx.scratch) / f'c05-vanish-{cname}'
+        root.mkdir(parents=True, exist_ok=True)
+        X = rng.randbytes(256)
+        fillers = [rng.randbytes(256) for _ in range(30)]
+        (root / 'f.bin').write_bytes(X + b''.join(fillers) + X)
+
+        class Vanishing(MemBackend):
+            def __init__(self):
+                super().__init__()
+                self.uploads = 0
+                self.first = None
+
+            def upload_stream(self, name, stream, length, chunk_size=128_000):
+                super().upload_stream(name, stream, length, chunk_size)
+                if name.startswith('data/'):
+                    self.uploads += 1
+                    if self.first is None:
+                        self.first = name
+                    if self.uploads == 12 and self.first in self.objects:
+                        del self.objects[self.first]          # "clean" by another client: not referenced by any snapshot yet
+
+        be = Vanishing()
+
+        async def go():
+            r = Repository(be, concurrent=1, quiet=True, cache_directory=None)
+            await r.init(password=b'pw', settings={'chunking': {'min_length': 256, 'max_length': 256}, 'hashing': {'name': 'blake2b', 'length': 32},
+                                                   'encryption': {'cipher': dict(cipher), 'kdf': {'name': 'scrypt', 'n': 4, 'r': 1, 'p': 1}}})
+            await r.snapshot(paths=[root / 'f.bin'])
+        try:
+            with contextlib.redirect_stdout(io.StringIO()), contextlib.redirect_stderr(io.StringIO()):
+                asyncio.run(go())
+        except Exception as e:
+            rep.notes.append(f'vanishing-chunk probe ({cname}) did not complete: {type(e).__name__}')
+            shutil.rmtree(root, ignore_errors=True)
+            continue
+        rep.case(('vanishing-chunk', cname), nontrivial=True)
+        for name, data in be.objects.items():
+            for label, secret in [('chunk X', X)] + [(f'filler {i}', f) for i, f in enumerate(fillers[:3])]:
+                if secret[:48] in data or secret[100:148] in data:
+                    rep.violations.append({'what': f'[{cname}] plaintext of {label} found at rest in object {name[:30]}... ({len(data)} bytes) after its first copy vanished mid-snapshot',
+                                           'signature': {'kind': 'plaintext_at_rest', 'scenario': 'vanishing_chunk'},
+                                           'replay': {'probe': 'vanishing_chunk', 'cipher': cname}})
+        shutil.rmtree(root, ignore_errors=True)
+
+
+def duplicated_state_probe(ctx, rep):
+    """Cipher adapter state duplicated the way fork / pickling duplicates it: two copies encrypting under one key must not
+    produce the same nonce (the nonce may not come from copyable userspace state)."""
+    import copy
+    from replicat.utils import adapters
+    for make in (lambda: adapters.aes_gcm(key_bits=256), lambda: adapters.aes_gcm(key_bits=128), lambda: adapters.chacha20_poly1305()):
+        a = make()
+        key = bytes(range(a.key_bytes))
+        b = copy.deepcopy(a)
+        n = a._nonce_bytes if hasattr(a, '_nonce_bytes') else 12
+        c1 = [a.encrypt(b'message-%d' % i, key)[:n] for i in range(4)]
+        c2 = [b.encrypt(b'other-%d' % i, key)[:n] for i in range(4)]
+        rep.case(('duplicated-state', type(a).__name__, a.key_bytes), nontrivial=True)
+        if set(c1) & set(c2) or len(set(c1)) < 4:
+            rep.violations.append({'what': f'{type(a).__name__}: two copies of one cipher adapter (as after fork) encrypt under the same key with the same nonce',
+                                   'signature': {'kind': 'nonce_reuse', 'scenario': 'duplicated_state'}, 'replay': {'probe': 'duplicated_state'}})
+
+
 def run_one(ctx, rep, seed, cid, cipher, hashing):
     import random
     try:
@@ -578,6 +649,8 @@ def run(ctx) -> Report:
         seed = ctx.rng.randrange(1 << 30)
         run_one(ctx, rep, seed, cid, cipher, hashing)
     scanner_selfcheck(ctx, rep)
+    vanishing_chunk_probe(ctx, rep)
+    duplicated_state_probe(ctx, rep)
     return rep
 
 
@@ -590,6 +663,8 @@ def search(ctx, broken) -> Report:
             seed = ctx.rng.randrange(1 << 30)
             run_one(ctx, rep, seed, cid, cipher, hashing)
             cid += 1
+    vanishing_chunk_probe(ctx, rep)
+    duplicated_state_probe(ctx, rep)
     return rep
 
 
